@@ -230,6 +230,11 @@ func (mbs *metadataPartStorage) createRangeReader(ctx context.Context, tx databa
 		globalEnd = *endByte
 	}
 	if globalStart >= globalEnd {
+		// A whole-object read of an empty object is an empty stream, not an
+		// unsatisfiable range.
+		if startByte == nil && endByte == nil {
+			return io.NopCloser(bytes.NewReader(nil)), nil
+		}
 		return nil, storage.ErrInvalidRange
 	}
 
